@@ -347,7 +347,12 @@ func replayOne(b rep.Behaviour) bool {
 		kinds := blockKey(rep.List(st, "block"))
 		tag := st.Act() + ":" + kinds
 		bad := func(index, d string) bool {
-			rep.Violation("C13:"+index+":"+tag, fmt.Sprintf("after %s %v (step %d): %s", st.Act(), rep.List(st, "block"), i, d), c)
+			key := "C13:" + index + ":" + tag
+			if index == "tx3" && os.Getenv("VERIF_INDEX_FOR") == "C33" {
+				// run on behalf of C33 (a withdrawn hash is recorded for as long as it is on the active chain)
+				key = "C33:withdrawn-hash-record:" + tag
+			}
+			rep.Violation(key, fmt.Sprintf("after %s %v (step %d): %s", st.Act(), rep.List(st, "block"), i, d), c)
 			return false
 		}
 		if e := strs(rep.List(st, "utxo")); !eq(e, p.Utxo) {
